@@ -19,6 +19,27 @@ extern "C" {
 	fn close(fd: i32) -> i32;
 	fn waitpid(pid: i32, status: *mut i32, options: i32) -> i32;
 	fn _exit(code: i32) -> !;
+	fn poll(fds: *mut PollFd, nfds: u64, timeout_ms: i32) -> i32;
+	fn kill(pid: i32, sig: i32) -> i32;
+}
+
+#[repr(C)]
+struct PollFd {
+	fd: i32,
+	events: i16,
+	revents: i16,
+}
+
+/// (state letter, utime + stime in clock ticks) of a process, from /proc
+fn proc_state(pid: i32) -> Option<(char, u64)> {
+	let s = std::fs::read_to_string(format!("/proc/{}/stat", pid)).ok()?;
+	// the command name (2nd field) is parenthesised and may contain spaces
+	let rest = &s[s.rfind(')')? + 2..];
+	let f: Vec<&str> = rest.split_whitespace().collect();
+	let state = f.first()?.chars().next()?;
+	let utime: u64 = f.get(11)?.parse().ok()?;
+	let stime: u64 = f.get(12)?.parse().ok()?;
+	Some((state, utime + stime))
 }
 
 /// Simulator-side objects that are expensive to build and hold no state of the program under test
@@ -82,16 +103,64 @@ pub fn run_isolated(plan: &Plan, props: &[String], with_plan: bool, trace: bool)
 	unsafe { close(fds[1]) };
 	let mut out: Vec<u8> = vec![];
 	let mut buf = [0u8; 65536];
+	// The simulated daemon never sleeps or blocks in real time (every timer, sleep, socket and child
+	// is virtual), so a run process that sits in a blocking system call without consuming any CPU time
+	// for `VERIF_HANG_S` seconds (default 30) is blocked for good: the one thread that polls every
+	// renewal is parked (e.g. a blocking lock taken inside the task) and no attempt can ever terminate.
+	// A process that is merely starved by machine load is runnable (state R), not sleeping, and is left alone.
+	let hang_s: u64 = std::env::var("VERIF_HANG_S").ok().and_then(|s| s.parse().ok()).unwrap_or(30);
+	let mut idle = 0u64;
+	let mut last_cpu = u64::MAX;
+	let mut blocked = false;
 	loop {
-		let n = unsafe { read(fds[0], buf.as_mut_ptr(), buf.len()) };
-		if n <= 0 {
+		let mut pfd = PollFd { fd: fds[0], events: 1, revents: 0 };
+		let r = unsafe { poll(&mut pfd, 1, 1000) };
+		if r > 0 {
+			let n = unsafe { read(fds[0], buf.as_mut_ptr(), buf.len()) };
+			if n <= 0 {
+				break;
+			}
+			out.extend_from_slice(&buf[..n as usize]);
+			idle = 0;
+			continue;
+		}
+		match proc_state(pid) {
+			Some((state, cpu)) => {
+				if (state == 'S' || state == 'D') && cpu == last_cpu {
+					idle += 1;
+				} else {
+					idle = 0;
+				}
+				last_cpu = cpu;
+			}
+			None => idle = 0,
+		}
+		if idle >= hang_s {
+			blocked = true;
+			unsafe { kill(pid, 9) };
 			break;
 		}
-		out.extend_from_slice(&buf[..n as usize]);
 	}
 	unsafe { close(fds[0]) };
 	let mut status = 0i32;
 	unsafe { waitpid(pid, &mut status, 0) };
+	if blocked {
+		let base = std::env::var("VERIF_SCRATCH").unwrap_or_else(|_| "/dev/shm".to_string());
+		let _ = std::fs::remove_dir_all(std::path::Path::new(&base).join(format!("acmed-verif-{}", pid)));
+		let mut viols = vec![];
+		for p in props.iter().filter(|p| *p == "C07" || *p == "C12") {
+			viols.push(json!({"property": p, "kind": "daemon_thread_blocked", "cause": "", "phase": "",
+				"detail": format!("the process running the daemon sat in a blocking system call without using any CPU time for {} s: the thread that polls every renewal is parked, no attempt can terminate", hang_s)}));
+		}
+		let tag = "blocked".to_string();
+		return Isolated {
+			record: json!({"index": plan.index, "family": plan.family, "violations": viols, "probes": {}, "faults_fired": {},
+				"virtual_s": 0, "events": 0, "posts": 0, "issued": 0, "outcomes": [tag.clone()], "trace_hash": tag.clone(), "ileave_hash": tag,
+				"nontrivial": {}, "panic": null, "harness_error": Value::Null,
+				"plan": serde_json::to_value(plan).unwrap()}),
+			harness_error: false,
+		};
+	}
 	let signaled = (status & 0x7f) != 0 && (status & 0x7f) != 0x7f;
 	let sig = status & 0x7f;
 	let code = (status >> 8) & 0xff;
